@@ -436,6 +436,10 @@ func (g *Gen) expr1(sc *scope, want string, depth int) Expr {
 		}
 		return Binary{op, g.expr(sc, ta, d), g.expr(sc, tb, d)}
 	}
+	// a sign in front of a literal at the edge of the 64-bit range
+	if (want == "int" || want == "any") && g.chance(30) {
+		return g.signedBoundary()
+	}
 	// unknown identifier
 	if g.chance(40) {
 		g.count("expr.unknown-ident")
@@ -611,9 +615,10 @@ func (g *Gen) nearPair() Expr {
 // -(2^63-1)-1 is the way to write the smallest int.
 func (g *Gen) signedBoundary() Expr {
 	sp := g.pick([]string{"9223372036854775807", "9223372036854775808", "0x7fffffffffffffff", "0x8000000000000000",
+		"9223372036854775808", "0x8000000000000000", "9223372036854775808", "0X8000000000000000",
 		"9223372036854775806", "18446744073709551615", "0xffffffffffffffff", "4611686018427387904"})
 	var e Expr = Lit{"int", sp}
-	if g.chance(2) {
+	if g.chance(3) {
 		e = Paren{e}
 	}
 	e = Unary{g.pick([]string{"-", "-", "+"}), e}
@@ -812,9 +817,18 @@ func (g *Gen) declWalk() []Stmt {
 	// a small pool: the same spelling serves as variable, as field and as the type of an unnamed
 	// nested block (whose key in its parent is that spelling)
 	names := []string{g.pick(varNames)}
-	if g.chance(2) {
+	for g.chance(2) && len(names) < 3 {
 		names = append(names, g.pick(varNames))
 	}
+	// what each spelling may be in this walk (a spelling that is only ever a block type and read is
+	// resolved differently from one that is also assigned somewhere)
+	mayVar, mayField := map[string]bool{}, map[string]bool{}
+	for _, nm := range names {
+		mayVar[nm] = g.chance(2)
+		mayField[nm] = g.chance(2)
+	}
+	childClosed := map[string]bool{}
+	forceType := false
 	n := 0
 	lit := func() Expr { n++; return Lit{"int", fmt.Sprint(n + 1)} }
 	val := func() Expr {
@@ -838,7 +852,17 @@ func (g *Gen) declWalk() []Stmt {
 		for *budget > 0 {
 			*budget--
 			nm := g.pick(names)
-			switch k := g.r.Intn(13); {
+			k := g.r.Intn(13)
+			if k < 3 && !mayVar[nm] || (k == 7 || k == 8 || k == 9) && !mayField[nm] {
+				k = 6 + 4*g.r.Intn(2) // a read instead: print nm, or nm compared with a name
+			}
+			if !mayVar[nm] && !mayField[nm] && !childClosed[nm] && k != 3 && k != 4 && k != 5 {
+				// a spelling that is only a block type here is not read before a child of that type exists
+				// (the first unresolved read ends the run): open such a child instead
+				k = 3
+				forceType = true
+			}
+			switch {
 			case k < 3:
 				var init Expr
 				switch g.r.Intn(3) {
@@ -855,9 +879,19 @@ func (g *Gen) declWalk() []Stmt {
 					body := walk(depth+1, budget)
 					name := fmt.Sprintf("%q", fmt.Sprintf("b%d", n))
 					typ := g.pick([]string{"t", "u"})
-					if g.chance(2) {
+					if g.chance(2) || forceType {
 						// unnamed, and of a type spelled like one of the names: its key is that name
 						name, typ = "", nm
+						childClosed[nm] = true
+						forceType = false
+						if g.chance(3) {
+							// … whose last assignment is to a field of that very name, and the key is
+							// assigned in the parent straight after the child has closed
+							body = append(body, ExprStmt{Assign{nm, lit()}})
+							out = append(out, DefStmt{typ, name, body}, stmtOf(Assign{nm, val()}))
+							g.count("declwalk.key-reuse")
+							continue
+						}
 					}
 					out = append(out, DefStmt{typ, name, body})
 					g.count("declwalk.block")
